@@ -5,7 +5,7 @@
 //! so queries return each row exactly once.
 
 use arrow::compute::filter_record_batch;
-use arrow_array::cast::AsArray;
+use arrow::row::{RowConverter, SortField};
 use arrow_array::BooleanArray;
 use arrow_array::{Array, RecordBatch};
 use std::collections::HashSet;
@@ -14,8 +14,15 @@ use crate::Result;
 
 /// Deduplicate rows across multiple record batches.
 ///
-/// Uses (timestamp_nanos, metric_name) as the dedup key. The first occurrence
-/// of each key is kept; subsequent duplicates are filtered out.
+/// A row is a duplicate only when an identical row (equal in every column)
+/// has already been seen; the first occurrence is kept and later copies are
+/// filtered out. Rows that merely share a timestamp and metric name but differ
+/// in a label or value are distinct series samples and are all kept.
+///
+/// Only batches that carry both a `timestamp` and a `metric_name` column (raw
+/// metric rows) are deduplicated, whatever the physical type of those columns
+/// (DataFusion returns Parquet strings as `Utf8View`); other batches pass
+/// through unchanged.
 ///
 /// This is applied at query time when any shard involved in the result set
 /// is in a dual-write split phase.
@@ -24,7 +31,7 @@ pub fn dedup_batches(batches: Vec<RecordBatch>) -> Result<Vec<RecordBatch>> {
         return Ok(batches);
     }
 
-    let mut seen: HashSet<(i64, String)> = HashSet::new();
+    let mut seen: HashSet<Vec<u8>> = HashSet::new();
     let mut result = Vec::with_capacity(batches.len());
 
     for batch in &batches {
@@ -32,46 +39,27 @@ pub fn dedup_batches(batches: Vec<RecordBatch>) -> Result<Vec<RecordBatch>> {
         let metric_col = batch.column_by_name("metric_name");
 
         // If the batch doesn't have both columns, we can't dedup — pass through
-        let (ts_col, metric_col) = match (ts_col, metric_col) {
-            (Some(t), Some(m)) => (t, m),
+        let ts_col = match (ts_col, metric_col) {
+            (Some(t), Some(_)) => t,
             _ => {
                 result.push(batch.clone());
                 continue;
             }
         };
 
-        // Try to get timestamp as nanosecond or int64
-        let ts_values: Vec<Option<i64>> = if let Some(ts_arr) =
-            ts_col.as_primitive_opt::<arrow_array::types::TimestampNanosecondType>()
+        // Encode every row over all of its columns; equal rows encode equally.
+        let fields: Vec<SortField> = batch
+            .schema()
+            .fields()
+            .iter()
+            .map(|f| SortField::new(f.data_type().clone()))
+            .collect();
+        let rows = match RowConverter::new(fields)
+            .and_then(|converter| converter.convert_columns(batch.columns()))
         {
-            (0..batch.num_rows())
-                .map(|i| {
-                    if ts_arr.is_null(i) {
-                        None
-                    } else {
-                        Some(ts_arr.value(i))
-                    }
-                })
-                .collect()
-        } else if let Some(ts_arr) = ts_col.as_primitive_opt::<arrow_array::types::Int64Type>() {
-            (0..batch.num_rows())
-                .map(|i| {
-                    if ts_arr.is_null(i) {
-                        None
-                    } else {
-                        Some(ts_arr.value(i))
-                    }
-                })
-                .collect()
-        } else {
-            // Can't interpret timestamp column — pass through
-            result.push(batch.clone());
-            continue;
-        };
-
-        let metric_arr = match metric_col.as_string_opt::<i32>() {
-            Some(arr) => arr,
-            None => {
+            Ok(rows) => rows,
+            Err(_) => {
+                // Column type without a row encoding — pass through
                 result.push(batch.clone());
                 continue;
             }
@@ -81,19 +69,13 @@ pub fn dedup_batches(batches: Vec<RecordBatch>) -> Result<Vec<RecordBatch>> {
         let mut keep = vec![true; batch.num_rows()];
         let mut any_dropped = false;
 
-        for i in 0..batch.num_rows() {
-            let ts = match ts_values[i] {
-                Some(v) => v,
-                None => continue, // Keep nulls
-            };
-            let metric = if metric_arr.is_null(i) {
-                String::new()
-            } else {
-                metric_arr.value(i).to_string()
-            };
+        for (i, keep_row) in keep.iter_mut().enumerate() {
+            if ts_col.is_null(i) {
+                continue; // Keep nulls
+            }
 
-            if !seen.insert((ts, metric)) {
-                keep[i] = false;
+            if !seen.insert(rows.row(i).as_ref().to_vec()) {
+                *keep_row = false;
                 any_dropped = true;
             }
         }
@@ -192,5 +174,46 @@ mod tests {
             total_rows, 3,
             "Different metrics at same timestamp are not duplicates"
         );
+    }
+
+    #[test]
+    fn test_dedup_keeps_series_sharing_timestamp_and_metric() {
+        // Two series of one metric (different value) at one timestamp, present in
+        // both the old shard and a new shard: each series is kept exactly once.
+        let old = make_batch(&[100, 100, 200], &["cpu", "cpu", "cpu"], &[1.0, 2.0, 3.0]);
+        let new = make_batch(&[100, 100, 200], &["cpu", "cpu", "cpu"], &[1.0, 2.0, 3.0]);
+
+        let result = dedup_batches(vec![old, new]).unwrap();
+
+        let total_rows: usize = result.iter().map(|b| b.num_rows()).sum();
+        assert_eq!(total_rows, 3, "Distinct series must not be collapsed");
+    }
+
+    #[test]
+    fn test_dedup_string_view_metric_column() {
+        use arrow_array::StringViewArray;
+
+        // DataFusion returns Parquet string columns as Utf8View.
+        let make = || {
+            let schema = Arc::new(Schema::new(vec![
+                Field::new("timestamp", DataType::Int64, false),
+                Field::new("metric_name", DataType::Utf8View, false),
+                Field::new("value", DataType::Float64, false),
+            ]));
+            RecordBatch::try_new(
+                schema,
+                vec![
+                    Arc::new(Int64Array::from(vec![100, 200])),
+                    Arc::new(StringViewArray::from(vec!["cpu", "mem"])),
+                    Arc::new(Float64Array::from(vec![1.0, 2.0])),
+                ],
+            )
+            .unwrap()
+        };
+
+        let result = dedup_batches(vec![make(), make()]).unwrap();
+
+        let total_rows: usize = result.iter().map(|b| b.num_rows()).sum();
+        assert_eq!(total_rows, 2, "Double-written copies must be suppressed");
     }
 }
